@@ -336,6 +336,7 @@ class BasisSHO(BasisSet):
             # n is designed for occupation number of the SHO basis
             mat = np.diag(np.arange(self.nbas))
         else:
+            self._recursion_flag -= 1
             raise ValueError(f"op_symbol:{op_symbol} is not supported. ")
 
         self._recursion_flag -= 1
@@ -608,6 +609,7 @@ class BasisSineDVR(BasisSet):
                 elif self.quadrature:
                     mat = self.quad(op_symbol)
                 else:
+                    self._recursion_flag -= 1
                     raise ValueError(f"op_symbol:{op_symbol} is not supported.You can try dvr or explicit quadrature")
                 # kinetic operators
             else:
@@ -616,6 +618,7 @@ class BasisSineDVR(BasisSet):
                 if self.quadrature:
                     mat = self.quad(op_symbol)
                 else:
+                    self._recursion_flag -= 1
                     raise ValueError(f"op_symbol:{op_symbol} is not supported. You can try explicit quadrature")
         
         self._recursion_flag -= 1
